@@ -27,7 +27,7 @@ class Ext:
     """
 
     def __init__(self, ret=None, pure=False, event=None, raises=(), ensures=(), havoc=(), requires=(),
-                 note="", model=None, fresh=True, bind=None, log=None):
+                 note="", model=None, fresh=True, bind=None, log=None, attr=False, log_type=None):
         self.ret = ret
         self.pure = pure
         self.event = event
@@ -38,6 +38,8 @@ class Ext:
         self.note = note
         self.model = model
         self.fresh = fresh
+        self.is_attr = attr  # a data attribute / property read, not a call
+        self.log_type = log_type
         self.bind = bind  # name under which the (last) result is visible to clauses
         self.log = log  # index of the argument recorded in the event log (default 0)
 
